@@ -55,7 +55,7 @@ var (
 	chunkNameT = []string{"", "chunks/[name]-[hash]", "[hash]", "c/[hash]-[name]", ".c/[name]-[hash]"}
 	assetNameT = []string{"", "assets/[name]-[hash]", "[name]", "[dir]/[name]", "a/[hash]"}
 	publicPathT = []string{"", "https://cdn.example.com/base", "/static/", "../up"}
-	outdirT    = []string{"out", "dist/deep", "src", "../outside", "."}
+	outdirT    = []string{"out", "dist/deep", "src", "../outside", ".", "src/outlink"} // (src/outlink: a symbolic link to "." made by the C17 scenario)
 )
 
 func GenOptions(g G, p *Project) *OptModel {
